@@ -13,7 +13,7 @@ import itertools
 import numpy as np
 
 from mc import ref, build
-from mc.core import Part, pmap, digest, safe
+from mc.core import Part, pmap, digest, safe, time_limit
 from mc.build import parse_atom
 
 ATOMS = ("x", "y", "z")
@@ -166,7 +166,8 @@ def check_functor(params):
                 return out
     if params.get("normal_form", True):
         try:
-            nf = d.normal_form()
+            with time_limit(20, "normal_form"):
+                nf = d.normal_form()
         except Exception:
             nf = None
         if nf is not None:
